@@ -272,6 +272,12 @@ func (blockchain *Blockchain) Update(timestamp int64) {
 	if isReplaced {
 		blockchain.mutex.Lock()
 		defer blockchain.mutex.Unlock()
+		// The candidates were verified against the blockchain as it was when the round started and the blocks to
+		// confirm are counted from there: give up when a block has been added meanwhile
+		if len(blockchain.blocks) != len(hostBlocks) || (len(hostBlocks) > 0 && blockchain.blocks[len(blockchain.blocks)-1] != hostBlocks[len(hostBlocks)-1]) {
+			blockchain.logger.Debug("verification done: blockchain kept, it has changed during the verification")
+			return
+		}
 		var newBlocks []*ledger.Block
 		if isFork {
 			blockchain.registry.Clear()
